@@ -689,6 +689,30 @@ def rule_r12(repo, run):
     run.floor(R, "tests of template_suffix", n, 2)
 
 
+def rule_r13(repo, run):
+    R = run.rule("C14.R13", "every kind of declaration that accepts a `format` / `options` group applies it: a field set on an enum, "
+                            "a variable or a typedef has the effect it has on the enclosing block")
+    am = repo.module("ast")
+    n = 0
+    for cname, cls in sorted(am.classes().items()):
+        if not cname.endswith("Node"):
+            continue
+        init = [f for f in cls.body if isinstance(f, ast.FunctionDef) and f.name == "__init__"]
+        if not init:
+            continue
+        params = [a.arg for a in init[0].args.args]
+        for p_ in ("format", "options"):
+            if p_ not in params:
+                continue
+            n += 1
+            used = [x for x in ast.walk(init[0]) if isinstance(x, ast.Name) and x.id == p_ and isinstance(x.ctx, ast.Load)
+                    and not isinstance(getattr(x, "_parent", None), ast.If)]
+            run.check(R, "ast.%s.__init__:%s" % (cname, p_), bool(used),
+                      "%s.__init__ takes `%s` and never uses it: the group written under the declaration in the YAML file is dropped "
+                      "silently, the same group on an enclosing block is honoured" % (cname, p_), am.loc(init[0]))
+    run.floor(R, "format / options parameters of node constructors", n, 12)
+
+
 def run(repo, run, tier):
     rule_r1(repo, run)
     rule_r2(repo, run)
@@ -702,3 +726,4 @@ def run(repo, run, tier):
     rule_r10(repo, run)
     rule_r11(repo, run)
     rule_r12(repo, run)
+    rule_r13(repo, run)
